@@ -124,7 +124,9 @@ class BaseTransformation(ABC):
         out_arr = self.call_array(x_arr)
 
         # Convert to right output type
-        if array_input:
+        if self.output_dtype == np.ndarray:
+            return out_arr if array_input else out_arr[0]
+        elif array_input:
             return self.output_array_dtype(out_arr)
         else:
             return self.output_dtype(out_arr[0])
@@ -156,7 +158,9 @@ class BaseTransformation(ABC):
         out_arr = self.inverse_array(x_arr)
 
         # Convert to right output type
-        if array_input:
+        if self.input_dtype == np.ndarray:
+            return out_arr if array_input else out_arr[0]
+        elif array_input:
             return self.input_array_dtype(out_arr)
         else:
             return self.input_dtype(out_arr[0])
